@@ -78,6 +78,12 @@ std::string vf_run(const Case &c, vf::Ctx &ctx) {
     else { ctx.count("table.hashed"); anyhashed = true; }
   }
   char loc[1024];
+  // in every other case one RtData object serves all messages and its object pointer is set only once (dispatch hands the
+  // caller's object back after every callback)
+  const bool one_rtdata = c.tree.tables[0].ports.size() % 2 == 0;
+  rtosc::RtData dshared;
+  dshared.obj = &inst.root;
+  if (one_rtdata) ctx.count("case.one_RtData_for_all_messages");
   for (size_t i = 0; i < c.addrs.size(); i++) {
     const std::string &addr = c.addrs[i], &tags = c.tags[i];
     pt::MsgBuf mb("/" + addr, tags);
@@ -98,11 +104,27 @@ std::string vf_run(const Case &c, vf::Ctx &ctx) {
     // the location buffer is zeroed once and then reused for all messages of the case (as an application's
     // dispatcher does); in cases with an odd number of messages it is re-zeroed every time
     if (i == 0 || c.addrs.size() % 2) memset(loc, 0, sizeof loc);
-    rtosc::RtData d1;
-    d1.obj = &inst.root;
+    rtosc::RtData dfresh;
+    dfresh.obj = &inst.root;
+    rtosc::RtData &d1 = one_rtdata ? dshared : dfresh;
     d1.loc = loc; d1.loc_size = sizeof loc;
     inst.rootports().dispatch(mb.msg(), d1, true);
     std::vector<pt::Seen> s1 = inst.seen;
+    if (d1.obj != &inst.root) return "after dispatch the RtData object pointer is not the caller's object any more for message /" + addr + " on " + c.tree.describe();
+
+    // (3) with a location buffer that holds exactly the address (and its terminator), at the end of a heap block
+    std::vector<pt::Seen> s2;
+    {
+      inst.seen.clear();
+      const size_t ls = addr.size() + 2;   // '/' + address + NUL
+      std::unique_ptr<char[]> hl(new char[ls]);
+      memset(hl.get(), 0, ls);
+      rtosc::RtData d2;
+      d2.obj = &inst.root;
+      d2.loc = hl.get(); d2.loc_size = ls;
+      inst.rootports().dispatch(mb.msg(), d2, true);
+      s2 = inst.seen;
+    }
 
     auto keys = [&](const std::vector<pt::Seen> &s, bool with_loc, bool defaults) {
       std::vector<Key> k;
@@ -116,6 +138,7 @@ std::string vf_run(const Case &c, vf::Ctx &ctx) {
     std::sort(e1.begin(), e1.end());
     std::string what = " for message /" + addr + " ,\"" + tags + "\" on " + c.tree.describe();
     std::vector<Key> g0 = keys(s0, false, false), g1 = keys(s1, true, false), g1n = keys(s1, false, false);
+    if (keys(s2, true, false) != g1 || keys(s2, false, true).size() != keys(s1, false, true).size()) return "callbacks invoked (or the locations they saw) differ when the location buffer holds exactly the address: " + show(keys(s2, true, false), c.tree) + " vs " + show(g1, c.tree) + " for message /" + addr + " on " + c.tree.describe();
     if (g0 != g1n) return "callbacks invoked differ between dispatch without and with a location buffer: without " + show(g0, c.tree) + " with " + show(g1n, c.tree) + what;
     if (!unspec) {
       if (g0 != e0) return "without location buffer: invoked " + show(g0, c.tree) + ", addressed " + show(e0, c.tree) + what;
